@@ -969,5 +969,16 @@ def r_comment(ctx, col):
                     col.bad("R-COMMENT", d.qualname, d.loc(c), "comment lines are a sequence: order and repeats are kept",
                             f"`{norm_src(c)[:70]}` passes the comment lines through a container that drops repeats or re-orders them: a blank separator line, a ruler line or any line "
                             f"that occurs twice is written once only", stmt="dedupe", definite=True)
+    # every comment of the tree is written: no filter on the way into the header block
+    for d in defs:
+        for c in own_nodes(d):
+            gens = c.generators if isinstance(c, (ast.GeneratorExp, ast.ListComp)) else []
+            for g_ in gens:
+                if g_.ifs and (norm_src(g_.iter) in ("self.comments", "comments") or (isinstance(g_.iter, ast.Attribute) and g_.iter.attr == "comments")) \
+                        and d.qualname.endswith("SWCLike.to_swc"):
+                    hits += 1
+                    col.bad("R-COMMENT", d.qualname, d.loc(c), "every comment line of the tree is written",
+                            f"`{norm_src(c)[:80]}` writes only the comments that pass `{norm_src(g_.ifs[0])[:50]}`: comment lines that happen to equal what the filter looks for "
+                            f"(a blank line, a line equal to a header line) are dropped from the file", stmt="comment-filter", definite=True)
     if not hits:
         col.ok("R-COMMENT", "comment-scan", "", "no de-duplicating container and no unlimited split on the comment path", f"{len(defs)} functions scanned", stmt="comment-scan")
